@@ -11,4 +11,5 @@ CONSTANTS
   QuietTicks = FALSE
   Defects = {}
   Depth = 30
+  Dice = 1
 CONSTRAINT Emit
